@@ -139,7 +139,7 @@ def gen_headers(rnd, cls, method):
         add(rnd.choice(["User-Agent", "user-agent", "USER-AGENT"]), rnd.choice(["curl/8.5.0", "Mozilla/5.0 (X11; Linux) é".encode("utf8"), "x"]))
     if rnd.random() < 0.5:
         add(rnd.choice(["Accept-Encoding", "accept-encoding"]), rnd.choice(["gzip", "gzip, br", "identity", "br;q=1.0, *;q=0"]))
-    elif rnd.random() < 0.06:
+    elif rnd.random() < 0.03:
         add("Accept-Encoding", "")
     if rnd.random() < 0.05:
         add("Range", "bytes=0-9")
@@ -220,7 +220,7 @@ def rand_body(rnd, big_ok=True):
 
 
 def gen_response(rnd, cls, client_headers, method):
-    status = rnd.choice([200] * 8 + [201, 202, 204, 206, 301, 302, 304, 400, 401, 403, 404, 418, 422, 429, 451, 499,
+    status = rnd.choice([200] * 14 + [201, 202, 204, 206, 301, 302, 304, 400, 401, 403, 404, 418, 422, 429, 451, 499,
                                      500, 502, 503, 504, 599, 299, 600, 999])
     nobody = status in (204, 304)
     body = b"" if nobody else rand_body(rnd)
@@ -280,8 +280,8 @@ def gen_response(rnd, cls, client_headers, method):
             "_wire_body": hx(wire_body), "_gunzipped": None if gunzipped is None else hx(gunzipped)}
 
 
-CLASSES = [("valid", 0.70), ("malformed", 0.08), ("invalid_pchar", 0.07), ("no_ctype", 0.04), ("gzip", 0.04),
-           ("ua", 0.03), ("conn_id", 0.04)]
+CLASSES = [("valid", 0.80), ("malformed", 0.08), ("invalid_pchar", 0.04), ("no_ctype", 0.02), ("gzip", 0.02),
+           ("ua", 0.02), ("conn_id", 0.02)]
 
 
 def build_raw(method, target, host, headers, body, chunked, cid):
@@ -360,7 +360,7 @@ def fixed_cases():
          ("multi.test", b"/x/y"), ("tls.test", b"/app/x%2Fy"), ("strip.test", b"/app/a|b%2Fc"), ("strip.test", b"/app/\xc3\xa9%2F")]
     out = []
     for host, t in T:
-        out.append({"host": host, "target": t, "resp": dict(ok), "method": "GET"})
+        out.append({"host": host, "target": t, "resp": dict(ok), "method": "GET", "headers": []})
     return out
 
 
@@ -624,7 +624,7 @@ def run(tier, seed):
                               "unexplained": bool(f & 128), "failed_clauses": [CLAUSE_BITS[b] for b in CLAUSE_BITS if cl & b]})
                     fh.write(json.dumps(d) + "\n")
         if real_mon:
-            j, f, cl = min(real_mon, key=lambda x: len(reqs[x[0]]["raw"]))
+            j, f, cl = min(real_mon, key=lambda x: (bin(x[2]).count("1"), bin(x[1] & 127).count("1"), len(reqs[x[0]]["raw"])))
             payload = readable(reqs[j], robs[j])
             payload.update({"property": PROP, "what": "monitor false on an implementation trace", "seed": seed, "tier": tier,
                             "failed_clauses": [CLAUSE_BITS[b] for b in CLAUSE_BITS if cl & b],
